@@ -358,6 +358,11 @@ fn build_handler(toks: &[&str]) -> Option<Built> {
     let mut params: Vec<Box<dyn DynParam>> = vec![];
     let mut starts = vec![];
     for ps in field("params").unwrap_or("").split(';').filter(|x| !x.is_empty()) {
+        // protocol rule (also enforced by the model's parser; `Op.SValid` in the C01 theorem): the receiver is listed first,
+        // a handler specification never starts with a fetcher-like parameter (the scripts read the event through parameter 0)
+        if params.is_empty() && (ps.starts_with("F:") || ps.starts_with("S:") || ps.starts_with("TS:")) {
+            return None;
+        }
         starts.push(params.len());
         params.extend(parse_param(ps)?);
     }
